@@ -2,10 +2,11 @@
 
 import ast
 
-from ..core.analysis import Analysis, assigned_names, facts
+from ..core.analysis import Analysis, assigned_names, facts, facts_deref
 from ..core.astutil import deref, const_value, method_calls
 from ..core.cfg import decompose_guard
 from ..core.pyrepo import Repo, calls_in, dotted, norm_stmt
+from ..core.report import AnalysisError
 
 
 def eval_pred(expr, env):
@@ -162,15 +163,19 @@ def _r1(ctx, repo, A):
            and not (fi.qual == "Process.wait" and (
                st.value in inner or norm_stmt(deref(fi.node, st.value)) in
                {norm_stmt(x) for x in inner}))]
-    rets = [n for n in cfg.nodes if n.kind == "return" and n.stmt.value is not None
-            and norm_stmt(deref(w.node, n.stmt.value)) == "self._exitcode"]
-    cached = False
-    for n in rets:
-        for e, pol, _ in cfg.guards(n):
-            for a_, t_ in decompose_guard(e, pol):
-                if t_ is True and norm_stmt(deref(w.node, a_)).replace(" ", "") == \
-                        "self._exitcodeisnot_SENTINEL":
-                    cached = True
+    # a later call answers from the cache: the platform wait is reached only while
+    # the cache still holds the sentinel, and what is returned is the cache (or the
+    # value stored in it by this call) - whichever way the test is spelled
+    unset = ("is", "self._exitcode", "_SENTINEL", True)
+    guarded = all(unset in facts_deref(cfg, n, w.node) for c_ in inner for n in cfg.owners(c_))
+    allrets = [n for n in cfg.nodes if n.kind == "return"]
+    from_cache = bool(allrets) and all(
+        n.stmt.value is not None and (
+            norm_stmt(deref(w.node, n.stmt.value)) == "self._exitcode"
+            or any(norm_stmt(deref(w.node, n.stmt.value)) == norm_stmt(deref(w.node, st.value))
+                   for fi, st in writes if fi.qual == "Process.wait"))
+        for n in allrets)
+    cached = guarded and from_cache
     if bad or not cached:
         ctx.fail("C15.R1", "wait:exitcode-memo", w.file, w.node.lineno, w.qual,
                  ("the cached exit code is written elsewhere: " + "; ".join(bad)) if bad
@@ -576,7 +581,39 @@ def _r6(ctx, repo, A):
              "did not time out; result is (list(gone), list(alive)); the time slice is "
              "recomputed from the deadline before every timed wait", floor=6)
     wpf = repo.func("psutil", "wait_procs")
-    cg = repo.func("psutil", "wait_procs.check_gone")
+    cg = repo.func("psutil", "wait_procs.check_gone", required=False)
+    if cg is None:
+        # the closure lifted to module level and bound with functools.partial:
+        # check_gone = partial(F, gone=gone, callback=callback); F is analysed with its
+        # bound parameters renamed to what they are bound to
+        import copy as _copy
+        from ..core.pyrepo import FuncInfo
+        for st_ in ast.walk(wpf.node):
+            if isinstance(st_, ast.Assign) and dotted(st_.targets[0]) == "check_gone" \
+                    and isinstance(st_.value, ast.Call) \
+                    and (dotted(st_.value.func) or "").split(".")[-1] == "partial" \
+                    and st_.value.args and isinstance(st_.value.args[0], ast.Name):
+                F = repo.func("psutil", st_.value.args[0].id, required=False)
+                if F is None:
+                    continue
+                ren = {k.arg: dotted(k.value) for k in st_.value.keywords
+                       if k.arg and dotted(k.value)}
+                fparams = [a.arg for a in F.node.args.args]
+                for i_, a_ in enumerate(st_.value.args[1:]):
+                    if i_ < len(fparams) and dotted(a_):
+                        ren[fparams[i_]] = dotted(a_)
+                node = _copy.deepcopy(F.node)
+                for n_ in ast.walk(node):
+                    if isinstance(n_, ast.Name) and n_.id in ren:
+                        n_.id = ren[n_.id]
+                    elif isinstance(n_, ast.arg) and n_.arg in ren:
+                        n_.arg = ren[n_.arg]
+                node.args.args = [a for a in node.args.args if a.arg not in ren.values()
+                                  or a.arg in ("proc", "timeout")]
+                cg = FuncInfo("psutil", F.qual, node)
+    if cg is None:
+        raise AnalysisError("anchor vanished: wait_procs' check_gone helper not found (neither a "
+                            "closure nor a functools.partial of a module function)")
     cfg = A.cfg(wpf)
     # validation
     raises = [n for n in cfg.nodes if n.kind == "raise" and "ValueError" in norm_stmt(n.stmt)]
@@ -744,16 +781,32 @@ def _r6(ctx, repo, A):
     else:
         ctx.fail("C15.R6", "init", wpf.file, wpf.node.lineno, wpf.qual,
                  f"initial partition is {vals}, expected alive=set(procs), gone=set()")
-    # deadline slicing: timeout = min(deadline - _timer(), max_timeout); <= 0 -> stop
-    sl = [s for s in ast.walk(wpf.node) if isinstance(s, ast.Assign)
-          and dotted(s.targets[0]) == "timeout" and isinstance(s.value, ast.Call)
-          and dotted(s.value.func) == "min"]
-    dl = [s for s in ast.walk(wpf.node) if isinstance(s, ast.Assign)
-          and dotted(s.targets[0]) == "deadline"]
-    good = len(sl) == 1 and len(dl) == 1 and \
-        norm_stmt(dl[0].value).replace(" ", "") == "_timer()+timeout" and \
-        {norm_stmt(a).replace(" ", "") for a in sl[0].value.args} == \
-        {"deadline-_timer()", "max_timeout"}
+    # deadline slicing: <slice> = min(<deadline> - _timer(), <1.0 / len(alive)>) where
+    # <deadline> = _timer() + <the timeout parameter>; names are free, temporaries followed
+    wparams = [a.arg for a in wpf.node.args.args]
+    tpar = wparams[1] if len(wparams) > 1 else "timeout"
+
+    def is_timer(e):
+        return isinstance(e, ast.Call) and dotted(e.func) in ("_timer", "time.monotonic",
+                                                              "time.time") and not e.args
+    dl = [s_ for s_ in ast.walk(wpf.node) if isinstance(s_, ast.Assign)
+          and isinstance(s_.targets[0], ast.Name) and isinstance(s_.value, ast.BinOp)
+          and isinstance(s_.value.op, ast.Add)
+          and any(is_timer(x) for x in (s_.value.left, s_.value.right))
+          and any(dotted(x) == tpar for x in (s_.value.left, s_.value.right))]
+    dnames = {s_.targets[0].id for s_ in dl}
+    sl = []
+    for s_ in ast.walk(wpf.node):
+        if isinstance(s_, ast.Assign) and isinstance(s_.targets[0], ast.Name) \
+                and isinstance(s_.value, ast.Call) and dotted(s_.value.func) == "min" \
+                and len(s_.value.args) == 2:
+            rem = [a for a in s_.value.args if isinstance(a, ast.BinOp) and isinstance(a.op, ast.Sub)
+                   and dotted(a.left) in dnames and is_timer(a.right)]
+            oth = [a for a in s_.value.args if a not in rem]
+            if len(rem) == 1 and len(oth) == 1 and norm_stmt(deref(wpf.node, oth[0])).replace(
+                    " ", "") in ("1.0/len(alive)", "1/len(alive)"):
+                sl.append(s_)
+    good = len(sl) == 1 and len(dl) == 1
     if good:
         ctx.ok("C15.R6", "deadline-slicing", sample=norm_stmt(sl[0]))
     else:
